@@ -71,6 +71,9 @@ type Case struct {
 	Requests [][]string
 	Touch    []string `json:",omitempty"` // Touch[i]: file rewritten with the same bytes before step i ("" none)
 	DirCache bool     `json:",omitempty"`
+	// BuildFirst[i]: run `plz build <request>` before `plz test` at step i, so that the test targets are
+	// already built (state Unchanged) when the test step looks for reusable results
+	BuildFirst []bool `json:",omitempty"`
 }
 
 var okContents = []string{"ok\n", "ok2\n", "", "ok\n#c\n"}
@@ -136,7 +139,7 @@ func gen(t *rapid.T) Case {
 					ts.RuntimeDeps = []string{l}
 				}
 			}
-			if rapid.IntRange(0, 3).Draw(t, "bin") == 0 {
+			if rapid.IntRange(0, 1).Draw(t, "bin") == 0 {
 				ts.BinSrc = rapid.SampledFrom([]string{"a.txt", "b.txt"}).Draw(t, "binsrc")
 			}
 			if len(ts.DataFiles)+len(ts.DataLabels)+len(ts.RuntimeDeps) > 0 || ts.DataDir != "" || ts.BinSrc != "" {
@@ -157,6 +160,9 @@ func gen(t *rapid.T) Case {
 		c.States = append(c.States, ns)
 		c.Descs = append(c.Descs, desc)
 		c.Touch = append(c.Touch, touch)
+		for len(c.BuildFirst) < len(c.Touch) {
+			c.BuildFirst = append(c.BuildFirst, rapid.IntRange(0, 2).Draw(t, "build_first") == 0)
+		}
 		c.Requests = append(c.Requests, genRequest(t, ns, c.Requests[len(c.Requests)-1]))
 	}
 	return c
@@ -276,6 +282,14 @@ func genEdit(t *rapid.T, old State, prevDesc string) (State, string, string) {
 				continue
 			}
 			fi := ins[rapid.IntRange(0, len(ins)-1).Draw(t, "efile")]
+			if op == "flip" && isPassing && ts.BinSrc != "" && rapid.Bool().Draw(t, "flip_binary") {
+				// break the test through its *binary* (the test's own output), not through data
+				for _, k := range ins {
+					if s.R.Files[k].Pkg == ts.Pkg && s.R.Files[k].Path == ts.BinSrc {
+						fi = k
+					}
+				}
+			}
 			if op == "flip" && !isPassing {
 				// repair an input that is actually bad (content or name), if there is one
 				for _, k := range ins {
@@ -609,8 +623,12 @@ func run(c Case, o *lib.Obs) error {
 		var resW, resF lib.PlzResult
 		var wg sync.WaitGroup
 		wg.Add(2)
+		buildFirst := i < len(c.BuildFirst) && c.BuildFirst[i]
 		go func() {
 			defer wg.Done()
+			if buildFirst {
+				e.PlzW().Run(lib.BuildTimeout, append([]string{"build"}, req...)...)
+			}
 			resW = e.PlzW().Run(lib.BuildTimeout, append([]string{"test", "--detailed"}, req...)...)
 		}()
 		go func() {
@@ -738,5 +756,5 @@ func run(c Case, o *lib.Obs) error {
 }
 
 func TestC11(t *testing.T) {
-	lib.Check(t, spec, lib.Scale(16, 600), gen, run)
+	lib.Check(t, spec, lib.Scale(24, 600), gen, run)
 }
